@@ -389,8 +389,13 @@ def _steps_of(p) -> tuple:
     return tuple(out)
 
 
-def reader_facts(ctx, f: Func, root_param: str) -> list[RFact]:
-    """all constant-key reads in f whose container is rooted at parameter root_param."""
+def reader_facts(ctx, f: Func, root_param: str, _depth=0, _seen=None) -> list[RFact]:
+    """all constant-key reads in f whose container is rooted at parameter root_param - including reads made by
+    package functions that are handed (a part of) the input: their facts are re-rooted at the path passed."""
+    _seen = _seen if _seen is not None else set()
+    if (f.qname, root_param) in _seen or _depth > 3:
+        return []
+    _seen.add((f.qname, root_param))
     R = ctx.R(f)
     cfg = cfg_of(f)
     pm = parent_map(f.node)
@@ -427,6 +432,40 @@ def reader_facts(ctx, f: Func, root_param: str) -> list[RFact]:
             rf.guarded = kind in ('get', 'in') or _is_guarded(n, key, cont, pm, cfg, node)
             rf.conv, rf.dest = _conv_dest(n, pm, f)
             facts.append(rf)
+    # helpers: g(..., <input path>, ...)
+    env = ctx.prog.env(f)
+    for n in own_nodes(f.node):
+        if not isinstance(n, ast.Call):
+            continue
+        res = env.resolve_call(n)
+        if res[0] != 'func':
+            continue
+        g = res[1]
+        if g.module.generated or g is f:
+            continue
+        params = list(g.params)
+        if g.is_method and not getattr(g, 'is_staticmethod', False) and isinstance(n.func, ast.Attribute):
+            params = params[1:]
+        node = cfg.owner(n)
+        for i, a in enumerate(n.args):
+            if i >= len(params):
+                break
+            for p in container_paths(a, node):
+                for sub in reader_facts(ctx, g, params[i], _depth + 1, _seen):
+                    rf = RFact()
+                    rf.path = _steps_of(p) + sub.path
+                    rf.kind, rf.expr, rf.node, rf.default = sub.kind, sub.expr, sub.node, sub.default
+                    rf.guarded, rf.conv, rf.dest = sub.guarded, sub.conv, sub.dest
+                    facts.append(rf)
+        for kw in n.keywords:
+            if kw.arg in g.params:
+                for p in container_paths(kw.value, node):
+                    for sub in reader_facts(ctx, g, kw.arg, _depth + 1, _seen):
+                        rf = RFact()
+                        rf.path = _steps_of(p) + sub.path
+                        rf.kind, rf.expr, rf.node, rf.default = sub.kind, sub.expr, sub.node, sub.default
+                        rf.guarded, rf.conv, rf.dest = sub.guarded, sub.conv, sub.dest
+                        facts.append(rf)
     return facts
 
 
